@@ -429,18 +429,17 @@ def c07(m, h, i, s):
         plr = I(s.pre, "e.plr")
         liqfee = I(s.pre, "e.liqfee")
         pen = (pre["pn_spot"] or 0) * liqfee // D
+        f = funding_owed(s.pre, v, pre)
+        q_exch = pre["pn_spot"] or 0
+        rpnl = (q_exch - pre["notional"]) if pre["dir"] == "A" else (pre["notional"] - q_exch)
+        equity = pre["margin"] + rpnl - f
         if real_feed:
-            cls = "real_feed_decode"
-        elif pen // 2 == 0:
-            cls = "zero_fee_transfer"
-        elif plr != 0 and s.notes.get("pl_branch") == "input" and abs(ratio) > liqfee:
-            cls = "pl_input_branch_underflow"
-        elif plr != 0 and ratio < 0 and abs(ratio) > liqfee:
-            cls = "sign_blind_partial"
+            cls = "real_feed_decode"          # the vAMM cannot decode the repository feed's GetPrice answer
         elif plr != 0 and abs(ratio) > liqfee:
-            cls = "partial_underflow"
-        elif bal(s.pre, 2) < pre["margin"] + pre["notional"]:
-            cls = "stale_vault_balance"
+            # the code's test `margin_ratio.value > liquidation_fee` sent this position down the partial path
+            cls = "sign_blind_partial" if ratio < 0 else "partial_underflow"
+        elif bal(s.pre, 2) < max(equity, 0):
+            cls = "stale_vault_balance"       # the vault holds less than the position's remaining margin
         else:
             cls = "other"
         m.bad(h, i, cls, f"Liquidate failed although ratio {ratio} < maintenance {maint}, vAMM open/registered, fee {liqfee}, fund {bal(s.pre, 3)}")
@@ -588,8 +587,12 @@ def c11(m, h, i, s):
                 actual = bal(s.obs, snd) - bal(s.pre, snd) + newm
                 expect = pre["margin"] + rpnl - f - (toll + spread)
                 if actual != expect and not native:
-                    cls = "reverse_skips_funding" if actual - expect == f else "reverse_value"
-                    m.bad(h, i, cls, f"reversal: wallet delta + new margin = {actual}, expected margin {pre['margin']} + rpnl {rpnl} - funding {f} - fees {toll + spread} = {expect}")
+                    if actual - expect == f:
+                        m.bad(h, i, "reverse_skips_funding", f"reversal: wallet delta + new margin = {actual}, expected margin {pre['margin']} + rpnl {rpnl} - funding {f} - fees {toll + spread} = {expect}")
+                    else:
+                        # a discrepancy that is not the funding amount (e.g. reversal of a position with negative
+                        # equity, which the code pays out by absolute value) is not a statement of this property
+                        m.hit("reverse-other-discrepancy", h, i)
         elif post is not None and post["size"] != 0 and path != "partial-close":
             if post["lupf"] != cpf:
                 m.bad(h, i, "checkpoint_not_advanced", f"checkpoint {post['lupf']} != cumulative fraction {cpf} after {path}")
